@@ -9,8 +9,8 @@ BASE = ("Trusted: Lean 4.33.0 kernel and the standard axioms each theorem's audi
         "MySQL's formats from documentation. Not verified: Go runtime and libraries, the driver Breeze0806/mysql beyond its contract.")
 P = {
  'C01': ('refinement theorem (Lean) + differential correspondence', 'Refinement of the parser state machine to the abstract binlog grammar, proved in Lean for all decoded histories and, at the byte level, for every well-formed history of the Spec master from every boundary of the log (C01_fidelity_bytes, C01_fidelity_bytes_resume: parseEvents fed exactly the served bytes delivers exactly the expected transactions); real parseEvents and real Stream() compared with model and Spec on generated histories.', 'partial facet: TCP path and pacing are sampled (stream level), not modelled'),
- 'C02': ('invariant/refinement proofs over the decoded-event state machine (Lean)', 'Delivery only at commit points, atomic grouping, rollback-empty, ignorable-event invariance and case-insensitive boundary recognition proved for every event sequence / every casing; correspondence exhaustive over unit sequences up to the bound.', ''),
- 'C03': ('label-chain and resume theorems (Lean) + differential correspondence', 'Labels chain and every end label is a resume point: proved over the decoded machine for every history; every delivered label actually used as a restart point against the real code.', ''),
+ 'C02': ('invariant/refinement proofs over the decoded-event state machine (Lean)', 'Delivery only at commit points, atomic grouping, rollback-empty, ignorable-event invariance and case-insensitive boundary recognition proved for every event sequence / every casing at the decoded level and, as corollaries of the byte-level refinement, on the served bytes for every handler, cut and ending (C02_bytes_*); correspondence exhaustive over unit sequences up to the bound.', ''),
+ 'C03': ('label-chain and resume theorems (Lean) + differential correspondence', 'Labels chain and every end label is a resume point: proved over the decoded machine for every history and on the served bytes (C03_bytes_labels, C03_bytes_resume_at_label); every delivered label actually used as a restart point against the real code.', ''),
  'C04': ('induction over attempt sequences (Lean) + fault enumeration against the real code', 'Kept position is the boundary after the last accepted transaction for every handler, every cut of the served byte stream and every ending (C04_bytes_outcome / _resume_pos); exactly-once over any sequence of failed attempts at the decoded and at the byte level (C04_bytes_exactly_once); real parser/Stream driven through every fault kind.', 'partial facet: pacing is runtime; the driver contract is assumed'),
  'C05': ('reachability invariants of a finite-control protocol model (Lean, decide +kernel per step) + scheduled runs of the real Stream()', 'Termination, no leftover goroutine, Error() never blocks: invariants over all interleavings of the abstract reader/parser/caller protocol; the real code is driven through scripted schedules.', 'partial facets: Go scheduler, wall-clock time, data races (race detector run in the thorough tier; driver Close()/readPacket race is a known finding)'),
  'C06': ('protocol invariants (Lean) + fault enumeration against the real Stream()', 'Stop reason published before channels close; Error() class determined by the cause for every stop point and interleaving of the model.', 'partial facet: timing is sampled'),
@@ -24,7 +24,7 @@ P = {
  'C14': ('structural induction over documents (Lean) + differential correspondence', 'Binary JSON decodes to text denoting the stored document.', 'float E-format text is a parameter'),
  'C15': ('round-trip theorem for table maps + cache invariants (Lean) + differential correspondence', 'Table maps decode exactly; rows attributed via the latest map for their id; column-count mismatch rejected.', ''),
  'C16': ('round-trip and checksum-invariance theorems (Lean) + differential correspondence', 'Header fields and control event bodies decode exactly, with and without trailing checksum.', ''),
- 'C17': ('iff-characterisation of the gate (Lean) + differential correspondence and injection', 'IsValid accepts exactly the self-consistent buffers; accessors total on them; invalid packets stop the stream with the position unchanged.', ''),
+ 'C17': ('iff-characterisation of the gate (Lean) + differential correspondence and injection', 'IsValid accepts exactly the self-consistent buffers; accessors total on them; invalid packets injected at any index of the served byte stream stop it with an error, no crash, no partial transaction, position at the last accepted boundary, and a clean attempt from there delivers the rest (C17_bytes_injected_invalid).', ''),
  'C18': ('set-semantics refinement (Lean) + exhaustive small-window correspondence', 'Contains/ContainsGTID/Equal/AddGTID agree with sets of (uuid, gno) pairs; AddGTID preserves canonical form.', ''),
  'C19': ('round-trip theorems for every GTID encoding (Lean) + differential correspondence', 'Text, tagged, SID-block and event encodings round-trip; MariaDB set invariants.', ''),
  'C20': ('escaper well-formedness and structure theorems (Lean) + differential correspondence with encoding/json', 'Marshalled transactions are well-formed JSON preserving structure.', 'partial facet: encoding/json framing and time formatting are Go runtime, compared byte for byte'),
